@@ -181,6 +181,30 @@ def rule_done(F, R):
                     "m_div_%s * m_mul_%s = %s, not 1: upscale no longer inverts scale %s" % (kind, kind, sp.simplify(dv * mv), wit))
     R.floor("R-C14-2", npairs, 6, "div/mul assignment pairs")
 
+    # R-C14-7: a column without any finite value must not keep the +max / lowest sentinels the constructor stores in (min, max)
+    ctor = [g for g in F.in_file(FILE) if g.cls == "nano::scalar_stats_t" and g.raw.get("ctor") == "other"]
+    sentinels = set()
+    for g in ctor:
+        for i in g.inits:
+            if i.get("c") and any(is_call(y, "std::numeric_limits::max") or is_call(y, "std::numeric_limits::lowest") for y in walk(i)):
+                sentinels.add(i.get("n"))
+    empty = [n_ for n_ in f.nodes() if n_["k"] == "if" and pp(n_["c"][n_["r"].index("cond")]) in ("(N == 0)", "(0 == N)")]
+    if sentinels:
+        got0 = {}
+        for n_ in empty:
+            for s_ in walk(n_["c"][n_["r"].index("then")]):
+                a = assignment(s_)
+                if a:
+                    for y in walk(a[0]):
+                        if y["k"] == "mem" and y.get("fd"):
+                            got0[y["n"]] = literal_value(a[1])
+                            break
+        missing = sorted(x for x in sentinels if got0.get(x) != 0)
+        R.check(bool(empty) and not missing, "R-C14-7", "all-missing column", f.loc(empty[0]) if empty else f.loc(),
+                "for a column without finite values the sentinel-initialised statistics %s are reset to 0" % sorted(sentinels),
+                "a column without finite values keeps the constructor's sentinel in %s (min/max = +-1.8e308): minmax scaling of any later finite value "
+                "absorbs it and up-scaling returns 0 / inf" % missing)
+
     # R-C14-4: the categorical mask branch resets all eight statistics to the identity
     want = {"m_min": 0, "m_max": 0, "m_mean": 0, "m_stdev": 0, "m_div_range": 1, "m_div_stdev": 1, "m_mul_range": 1, "m_mul_stdev": 1}
     found = False
